@@ -6,11 +6,13 @@ from lib import gpgen
 from py2v import units_gp
 
 PROP = "C02"
-PROPS_FILES = ["Props/C02.v", "Props/C02_poly.v"]
+PROPS_FILES = ["Props/C02.v", "Props/C02_poly.v", "Props/C02_se_psd.v"]
 ASSUMPTIONS = [
   "exact arithmetic over an abstract real field; 'up to conditioning-scaled rounding' is outside the model (searcher tolerance 1e-8 * cond)",
   "LAPACK contract: a successful cho_factor/cho_solve returns A^-1 b, solve_triangular with the Cholesky factor returns (chol A)^-1 b, chol A (chol A)^T = A",
-  "positive semi-definiteness of the joint kernel Gram matrix is a hypothesis of the PSD clause (see C03)",
+  "positive semi-definiteness of the joint kernel Gram matrix is a hypothesis of the PSD clause for the Matern kernels (see C03); for the SquareExponential kernel it is DISCHARGED: Props/C02_se_psd.v instantiates "
+  "the abstract-field theorems at Coq's R (Lib/RStruct.v), identifies the joint block matrix with the regenerated SE Gram matrix of the concatenated point set and applies C03's n x n PSD theorem - the posterior "
+  "covariance (noise, nugget, zero mean) is PSD and the pointwise variance non-negative before the floor, with only the Cholesky contract left; those theorems depend on the standard-library real-number / classical / epsilon axioms",
   "the posterior variance is k(x,x) - k*^T K^-1 k* as the library defines it (no correction for the estimated mean)",
 ]
 TRUSTED = ["tools/py2v matrix back-end (validated on every run by evaluating the emitted terms with numpy against real GaussianProcess objects)"]
@@ -20,13 +22,14 @@ LEVEL_TEXT = ("MathComp theorems over the GP dataflow regenerated from gaussian_
               "floor, joint covariance closed form, symmetry, PSD by Schur complement, weighted sums for the sum of GPs; independent-oracle search on the "
               "running code (saddle point solved in extended precision with refinement)")
 LEVEL_NOTE = ("rounding/conditioning outside the model; LAPACK and kernel-PSD as contracts; permutation invariance and appended lie data are decided by the "
-              "searcher (uniqueness of the saddle point is the proved core); no axioms (closed under the global context)")
+              "searcher (uniqueness of the saddle point is the proved core); the abstract-field theorems have no axioms (closed under the global context), the SquareExponential instance at R uses the standard-library real-number / classical / epsilon axioms")
 TECHNIQUE = "MathComp matrix proofs on definitions regenerated from source (translator, matrix back-end) + independent-oracle search"
 DESIGN_REF = "DESIGN.md section 7, C02"
 
 
 def generate(ctx):
-  return units_gp.generate(ctx)
+  from py2v import gen as _gen
+  return units_gp.generate(ctx) + _gen.generate(ctx, ["GenCovariance"])   # Props/C02_se_psd.v is stated on the regenerated SE kernel entry points
 
 
 def oracle(inp):
